@@ -71,6 +71,7 @@ func assign(f []mnode, kinds []string, pos *int) []mnode {
 }
 
 type c20Run struct {
+	scheme string // module naming: "" unique | same (every module has one name) | alt (names repeat every second nesting level)
 	w     *kit.World
 	spec  *kit.Spec
 	okN   int
@@ -122,6 +123,12 @@ func (r *c20Run) build(f []mnode, path []string, counter *int) []godi.ModuleOpti
 		if x.Mod {
 			*counter++
 			name := fmt.Sprintf("m%d", *counter)
+			switch r.scheme {
+			case "same":
+				name = "m"
+			case "alt":
+				name = []string{"a", "b"}[len(path)%2]
+			}
 			kids := r.build(x.Kids, append(append([]string{}, path...), name), counter)
 			out = append(out, godi.NewModule(name, kids...))
 			continue
@@ -136,9 +143,36 @@ func (r *c20Run) build(f []mnode, path []string, counter *int) []godi.ModuleOpti
 	return out
 }
 
+// nested reports whether some module of the forest contains a module.
+func nested(f []mnode, inMod bool) bool {
+	for _, x := range f {
+		if x.Mod && (inMod || nested(x.Kids, true)) {
+			return true
+		}
+	}
+	return false
+}
+
+// c20Check judges one forest; forests with nested modules are judged under every naming scheme
+// (unique names, one name for all modules, names repeating every second level).
 func c20Check(forest []mnode) (fs []Finding, outcome string) {
+	fs, outcome = c20CheckNamed(forest, "")
+	if nested(forest, false) {
+		for _, sch := range []string{"same", "alt"} {
+			f2, _ := c20CheckNamed(forest, sch)
+			for _, x := range f2 {
+				x.F["names"] = sch
+				x.Detail += "\n  module naming scheme: " + sch
+				fs = append(fs, x)
+			}
+		}
+	}
+	return
+}
+
+func c20CheckNamed(forest []mnode, scheme string) (fs []Finding, outcome string) {
 	spec := &kit.Spec{}
-	run := &c20Run{w: kit.NewWorld(spec), spec: spec}
+	run := &c20Run{w: kit.NewWorld(spec), spec: spec, scheme: scheme}
 	cnt := 0
 	opts := run.build(forest, nil, &cnt)
 	// building a module from a caller-owned slice must leave that slice alone
@@ -321,14 +355,18 @@ func c20Enumerate(r *mc.Report, n, depth, shard, nshards int) {
 func init() {
 	mc.Register(&mc.Check{
 		Prop:        "C20",
-		Rule:        "all module trees (ordered forests passed to AddModules) with <=3 leaves at module nesting <=3 and 4 leaves at nesting <=1 (quick); 4 leaves at nesting <=3 and 5 leaves at nesting <=1 (thorough); every leaf drawn from {Add ok, Add keyed ok, Add duplicating, Add with an invalid option combination, Remove of an unkeyed type, Remove of a type that only has keyed registrations, RemoveKeyed, nil entry}: a twin collection receives the flattened calls directly, stopping at the first failure; compared: deep dumps of both collections, Contains/ContainsKeyed/Count/ToSlice, Build verdict and the answers of the whole identity universe of both providers, building a module from a caller-owned slice leaves the slice unchanged; and the error chain (exactly one ModuleError per enclosing module, outermost first, then the direct call's error; same errors.Is/As classes). distinct = (position of the failing leaf, error class, number of modules) classes.",
+		Rule:        "all module trees (ordered forests passed to AddModules) with <=3 leaves at module nesting <=3 and 4 leaves at nesting <=1 (quick); 4 leaves at nesting <=3 and 5 leaves at nesting <=1 (thorough); every leaf drawn from {Add ok, Add keyed ok, Add duplicating, Add with an invalid option combination, Remove of an unkeyed type, Remove of a type that only has keyed registrations, RemoveKeyed, nil entry}: a twin collection receives the flattened calls directly, stopping at the first failure; compared: deep dumps of both collections, Contains/ContainsKeyed/Count/ToSlice, Build verdict and the answers of the whole identity universe of both providers, building a module from a caller-owned slice leaves the slice unchanged; and the error chain (exactly one ModuleError per enclosing module, outermost first, then the direct call's error; same errors.Is/As classes); trees with nested modules are judged three times: with unique module names, with one name shared by all modules, and with names repeating every second nesting level. distinct = (position of the failing leaf, error class, number of modules) classes.",
 		Assume:      []string{"both collections register the very same function values, so dumps are comparable without renaming"},
 		MinOutcomes: 5,
 		Jobs: func(tier string) []mc.Job {
 			var jobs []mc.Job
-			for n := 0; n <= 3; n++ {
+			for n := 0; n <= 2; n++ {
 				n := n
 				jobs = append(jobs, mc.Job{Name: fmt.Sprintf("c20-leaves%d", n), Run: func(r *mc.Report) { c20Enumerate(r, n, 3, 0, 1) }})
+			}
+			for sh := 0; sh < 16; sh++ {
+				sh := sh
+				jobs = append(jobs, mc.Job{Name: fmt.Sprintf("c20-leaves3#%d", sh), Weight: 8, Run: func(r *mc.Report) { c20Enumerate(r, 3, 3, sh, 16) }})
 			}
 			d4 := 1
 			if tier == "thorough" {
